@@ -1,0 +1,128 @@
+//go:build verif
+
+package mcp
+
+// Contracts for govc (see /verif/DESIGN.md). Comments only; compiled only with -tags verif.
+// The tool tables below are taken from internal/mcp/spec.md ("Tool List" headings and "Guardrails"),
+// not from the switch statements they are compared with.
+
+//@ spec
+//@ set TOOLS_READ = {"config_parse", "config_validate", "config_compile", "config_fmt_preview", "config_diff", "admin_health", "management_model", "backlog_top_queued", "backlog_oldest_queued", "backlog_aging_summary", "backlog_trends", "messages_list", "attempts_list", "dlq_list"}
+//@ set TOOLS_OPERATE = {"dlq_requeue", "dlq_delete", "messages_cancel", "messages_requeue", "messages_resume", "messages_publish", "messages_cancel_by_filter", "messages_requeue_by_filter", "messages_resume_by_filter", "instance_status", "instance_logs_tail"}
+//@ set TOOLS_ADMIN = {"config_apply", "management_endpoint_upsert", "management_endpoint_delete", "instance_start", "instance_stop", "instance_reload"}
+//@ set NEEDS_MUTATIONS = {"config_apply", "management_endpoint_upsert", "management_endpoint_delete", "dlq_requeue", "dlq_delete", "messages_cancel", "messages_requeue", "messages_resume", "messages_publish", "messages_cancel_by_filter", "messages_requeue_by_filter", "messages_resume_by_filter"}
+//@ set NEEDS_RUNTIME = {"instance_start", "instance_status", "instance_logs_tail", "instance_stop", "instance_reload"}
+//@ set MUTATING = {"config_apply", "management_endpoint_upsert", "management_endpoint_delete", "dlq_requeue", "dlq_delete", "messages_cancel", "messages_requeue", "messages_resume", "messages_publish", "messages_cancel_by_filter", "messages_requeue_by_filter", "messages_resume_by_filter", "instance_start", "instance_stop", "instance_reload"}
+//@ ghost var audits int
+//@ pred knownTool(name string) := name in TOOLS_READ || name in TOOLS_OPERATE || name in TOOLS_ADMIN
+//@ func rankOf(r Role) int := ite(r == RoleAdmin, 3, ite(r == RoleOperate, 2, 1))
+//@ func requiredOf(name string) Role := ite(name in TOOLS_ADMIN, RoleAdmin, ite(name in TOOLS_OPERATE, RoleOperate, RoleRead))
+//@ func effRole(raw Role) Role := ite(lower(trim(raw)) == "admin", RoleAdmin, ite(lower(trim(raw)) == "operate", RoleOperate, RoleRead))
+//@ pred accessOK(s *Server, name string) := knownTool(name) && (name in NEEDS_MUTATIONS ==> s.MutationsEnabled) && (name in NEEDS_RUNTIME ==> s.RuntimeControlEnabled) && rankOf(effRole(s.Role)) >= rankOf(requiredOf(name)) && (name in MUTATING ==> trim(s.Principal) != "")
+//@ lemma [C20:tables_consistent] forall n string :: (n in MUTATING ==> n in NEEDS_MUTATIONS || n in NEEDS_RUNTIME) && (n in NEEDS_MUTATIONS || n in NEEDS_RUNTIME ==> knownTool(n)) && !(n in TOOLS_READ && n in MUTATING) && !(n in TOOLS_READ && (n in NEEDS_MUTATIONS)) && (n in TOOLS_ADMIN ==> n in MUTATING)
+//@ lemma [C20:roles_partition] forall n string :: !(n in TOOLS_READ && n in TOOLS_OPERATE) && !(n in TOOLS_READ && n in TOOLS_ADMIN) && !(n in TOOLS_OPERATE && n in TOOLS_ADMIN)
+//@ lemma [C20:rank_order] rankOf(RoleRead) < rankOf(RoleOperate) && rankOf(RoleOperate) < rankOf(RoleAdmin)
+
+//@ extern encoding/json.(*Encoder).Encode(enc, v) (err)
+//@   modifies audits
+//@   ensures audits == old(audits) + 1
+
+//@ func ParseRole
+//@   ensures [parsed] result1 == nil ==> result0 == effRole(raw) && (lower(trim(raw)) == "" || lower(trim(raw)) == "read" || lower(trim(raw)) == "operate" || lower(trim(raw)) == "admin")
+//@   ensures [rejected] result1 != nil ==> result0 == "" && lower(trim(raw)) != "" && lower(trim(raw)) != "read" && lower(trim(raw)) != "operate" && lower(trim(raw)) != "admin"
+
+//@ func (*Server).effectiveRole
+//@   ensures [spec] s != nil ==> result == effRole(s.Role)
+//@   ensures [nil_is_read] s == nil ==> result == RoleRead
+
+//@ func roleRank
+//@   ensures [table] result == rankOf(role)
+
+//@ func (*Server).roleAllows
+//@   requires s != nil
+//@   ensures [spec] result <==> rankOf(effRole(s.Role)) >= rankOf(required)
+
+//@ func requiredRoleForTool
+//@   ensures [C20:table] (result1 <==> knownTool(name)) && (knownTool(name) ==> result0 == requiredOf(name)) && (!knownTool(name) ==> result0 == "")
+
+//@ func toolRequiresMutationsFlag
+//@   ensures [C20:table] result <==> name in NEEDS_MUTATIONS
+
+//@ func toolRequiresRuntimeControlFlag
+//@   ensures [C20:table] result <==> name in NEEDS_RUNTIME
+
+//@ func toolIsMutating
+//@   ensures [C20:table] result <==> name in MUTATING
+
+//@ func (*Server).auditPrincipal
+//@   requires s != nil
+//@   ensures [spec] result == trim(s.Principal)
+
+//@ func (*Server).toolAccessError
+//@   requires s != nil
+//@   ensures [C20:complete_gate] result == nil <==> accessOK(s, name)
+
+//@ func bindAuditActorToPrincipal
+//@   ensures [C20:actor_bound] result1 == nil ==> (trim(principal) != "" ==> result0 == trim(principal)) && (trim(principal) == "" ==> result0 == trim(actor))
+//@   ensures [C20:foreign_actor_rejected] trim(actor) != "" && trim(principal) != "" && trim(actor) != trim(principal) ==> result1 != nil
+
+//@ func (*Server).emitMutationAuditEvent
+//@   modifies audits
+//@   calls encoding/json.(*Encoder).Encode requires [C20:record_has_required_keys] "timestamp" in event && "principal" in event && "role" in event && "tool" in event && "input_hash" in event && "result" in event && "duration_ms" in event
+//@   ensures [C20:one_record_iff_mutating] audits == ite(name in MUTATING && s != nil && s.AuditWriter != nil, old(audits) + 1, old(audits))
+
+//@ func (*Server).tool*
+//@   trusted
+//@   modifies *
+//@   preserves Server.*
+
+//@ func (*Server).rollbackCounterSnapshot
+//@   trusted
+
+//@ func *AuditMetadata
+//@   trusted
+
+//@ func toolInputHash
+//@   trusted
+
+//@ func toolErrorf
+//@   trusted
+
+//@ func toolSuccess
+//@   trusted
+
+//@ func (*Server).callTool
+//@   requires s != nil && s.AuditWriter != nil
+//@   modifies *
+//@   calls toolConfigParse requires [C20:gate_and_bind:config_parse] accessOK(s, name) && name == "config_parse"
+//@   calls toolConfigValidate requires [C20:gate_and_bind:config_validate] accessOK(s, name) && name == "config_validate"
+//@   calls toolConfigCompile requires [C20:gate_and_bind:config_compile] accessOK(s, name) && name == "config_compile"
+//@   calls toolConfigFmtPreview requires [C20:gate_and_bind:config_fmt_preview] accessOK(s, name) && name == "config_fmt_preview"
+//@   calls toolConfigDiff requires [C20:gate_and_bind:config_diff] accessOK(s, name) && name == "config_diff"
+//@   calls toolConfigApply requires [C20:gate_and_bind:config_apply] accessOK(s, name) && name == "config_apply"
+//@   calls toolAdminHealth requires [C20:gate_and_bind:admin_health] accessOK(s, name) && name == "admin_health"
+//@   calls toolManagementModel requires [C20:gate_and_bind:management_model] accessOK(s, name) && name == "management_model"
+//@   calls toolManagementEndpointUpsert requires [C20:gate_and_bind:management_endpoint_upsert] accessOK(s, name) && name == "management_endpoint_upsert"
+//@   calls toolManagementEndpointDelete requires [C20:gate_and_bind:management_endpoint_delete] accessOK(s, name) && name == "management_endpoint_delete"
+//@   calls toolBacklogTopQueued requires [C20:gate_and_bind:backlog_top_queued] accessOK(s, name) && name == "backlog_top_queued"
+//@   calls toolBacklogOldestQueued requires [C20:gate_and_bind:backlog_oldest_queued] accessOK(s, name) && name == "backlog_oldest_queued"
+//@   calls toolBacklogAgingSummary requires [C20:gate_and_bind:backlog_aging_summary] accessOK(s, name) && name == "backlog_aging_summary"
+//@   calls toolBacklogTrends requires [C20:gate_and_bind:backlog_trends] accessOK(s, name) && name == "backlog_trends"
+//@   calls toolMessagesList requires [C20:gate_and_bind:messages_list] accessOK(s, name) && name == "messages_list"
+//@   calls toolAttemptsList requires [C20:gate_and_bind:attempts_list] accessOK(s, name) && name == "attempts_list"
+//@   calls toolDLQList requires [C20:gate_and_bind:dlq_list] accessOK(s, name) && name == "dlq_list"
+//@   calls toolDLQRequeue requires [C20:gate_and_bind:dlq_requeue] accessOK(s, name) && name == "dlq_requeue"
+//@   calls toolDLQDelete requires [C20:gate_and_bind:dlq_delete] accessOK(s, name) && name == "dlq_delete"
+//@   calls toolMessagesCancel requires [C20:gate_and_bind:messages_cancel] accessOK(s, name) && name == "messages_cancel"
+//@   calls toolMessagesRequeue requires [C20:gate_and_bind:messages_requeue] accessOK(s, name) && name == "messages_requeue"
+//@   calls toolMessagesResume requires [C20:gate_and_bind:messages_resume] accessOK(s, name) && name == "messages_resume"
+//@   calls toolMessagesPublish requires [C20:gate_and_bind:messages_publish] accessOK(s, name) && name == "messages_publish"
+//@   calls toolMessagesCancelByFilter requires [C20:gate_and_bind:messages_cancel_by_filter] accessOK(s, name) && name == "messages_cancel_by_filter"
+//@   calls toolMessagesRequeueByFilter requires [C20:gate_and_bind:messages_requeue_by_filter] accessOK(s, name) && name == "messages_requeue_by_filter"
+//@   calls toolMessagesResumeByFilter requires [C20:gate_and_bind:messages_resume_by_filter] accessOK(s, name) && name == "messages_resume_by_filter"
+//@   calls toolInstanceStart requires [C20:gate_and_bind:instance_start] accessOK(s, name) && name == "instance_start"
+//@   calls toolInstanceStatus requires [C20:gate_and_bind:instance_status] accessOK(s, name) && name == "instance_status"
+//@   calls toolInstanceLogsTail requires [C20:gate_and_bind:instance_logs_tail] accessOK(s, name) && name == "instance_logs_tail"
+//@   calls toolInstanceStop requires [C20:gate_and_bind:instance_stop] accessOK(s, name) && name == "instance_stop"
+//@   calls toolInstanceReload requires [C20:gate_and_bind:instance_reload] accessOK(s, name) && name == "instance_reload"
+//@   ensures [C20:one_audit_per_mutating_call] audits == ite(name in MUTATING, old(audits) + 1, old(audits))
